@@ -32,7 +32,7 @@ func c22sNames() []string {
 		out = append(out, sb.String())
 		return true
 	})
-	out = append(out, "", "..", "a/..", "a/../b", "a/0", "t/partitions/0", "a:0", "A", "a_b", "a-b", "a.b", strings.Repeat("a", 249), strings.Repeat("a", 250), "a\x00b", "é")
+	out = append(out, "", "..", "a/..", "a/../b", "a/0", "t/partitions/0", "a:0", "A", "a_b", "a-b", "a.b", "a.kfs", "a.index", ".kfs", ".index", "a.kfs.index", "a.index.kfs", "segment-0", "a.kfst", strings.Repeat("a", 249), strings.Repeat("a", 250), "a\x00b", "é")
 	return out
 }
 
